@@ -271,9 +271,38 @@ func provablyNonNilErr(r *ssa.Return) bool {
 	if isNilConst(er) {
 		return false
 	}
-	switch er.(type) {
+	switch x := er.(type) {
 	case *ssa.MakeInterface:
 		return true
+	case *ssa.Call:
+		// error constructors
+		switch calleeName(x) {
+		case "fmt.Errorf", "errors.New":
+			return true
+		}
+		if cal := staticCallee(x); cal != nil && cal.Blocks != nil && cal != r.Parent() {
+			all := true
+			rs := returnsOf(cal)
+			for _, r2 := range rs {
+				if len(r2.Results) != 1 || !provablyNonNilErr(r2) {
+					all = false
+				}
+			}
+			if all && len(rs) > 0 {
+				return true
+			}
+		}
+	}
+	for _, g := range guardsAtBlock(r.Block()) {
+		bo, ok := g.Cond.(*ssa.BinOp)
+		if !ok {
+			continue
+		}
+		if (bo.X == er && isNilConst(bo.Y)) || (bo.Y == er && isNilConst(bo.X)) {
+			if (bo.Op == token.NEQ && g.Truth) || (bo.Op == token.EQL && !g.Truth) {
+				return true
+			}
+		}
 	}
 	return false
 }
